@@ -2,10 +2,18 @@
    Theorems over MiniScope (Model/C12.v): a lexical resolver with the recorder protocol of cl feeding
    typesutil.Info (Def / Use / Type / Scope events), object positions assigned as cl+gogen assign them.
    Proofs in Proofs/C12.v. *)
-From Coq Require Import List NArith Bool.
+From Coq Require Import List NArith Bool String.
 Import ListNotations.
-From V Require Import Model.C12 Proofs.C12.
+From V Require Import Model.C12 Proofs.C12 Gen.C12 Proofs.C12Sites.
 Open Scope N_scope.
+
+(* K-gen obligation: the cl call sites (regenerated into Gen/C12.v on every run) give object positions
+   and record definitions exactly as the model hard-wires it (a site the generator cannot read is accepted
+   as RUnparsed: the identifier map compared dynamically shows every one of these positions).  A repaired site (e.g. one position per
+   name) changes Gen/C12.v and this stops to check: the signal to update model, theorems and findings. *)
+Theorem C12_sites_as_modelled :
+  forallb site_ok c12_sites = true /\ map fst c12_sites = map fst c12_sites_modelled.
+Proof. exact sites_as_modelled. Qed.
 
 (* Info.Uses invariant  "Uses[id].Pos() != id.Pos()":  for ALL programs whose identifier occurrences
    are at distinct positions, every recorded use refers to an object declared elsewhere (or to an
@@ -112,6 +120,7 @@ Example C12_example_invariants :
   forallb (node_ok (nodes_prog ex_shadow)) (run ex_shadow) = true.
 Proof. vm_compute. auto. Qed.
 
+Print Assumptions C12_sites_as_modelled.
 Print Assumptions C12_uses_elsewhere.
 Print Assumptions C12_defs_pos_characterised.
 Print Assumptions C12_defs_at_own_pos.
